@@ -139,3 +139,31 @@ package trust
 //@   trusted
 //@   modifies nothing
 //@   ensures result1 == nil ==> result0 != nil
+
+//@ # ---- C36: a signer signs only while it has not expired, and stamps the message with the time it checked
+//@ macro saneT(t) = (t.ext >= -(1<<61) && t.ext <= 1<<61)
+//@ macro saneNow(t) = (t.ext >= -(1<<62) && t.ext <= 1<<62)
+//@ func (Signer).validate
+//@   props C36
+//@   # times are Unix nanoseconds far from the int64 limits (A8)
+//@   requires saneT(s.Expiration) && saneNow(now)
+//@   modifies nothing
+//@   ensures (result == nil) == (s.Expiration.ext >= now.ext)
+//@ extern google.golang.org/protobuf/proto.Marshal
+//@   modifies nothing
+//@ extern github.com/scionproto/scion/pkg/scrypto/signed.Sign
+//@   modifies nothing
+//@ func associatedDataLen
+//@   trusted
+//@   modifies nothing
+//@ func (Signer).Sign
+//@   props C36
+//@   nosafety
+//@   requires saneT(s.Expiration)
+//@   callpre github.com/scionproto/scion/pkg/scrypto/signed.Sign: a0.Timestamp.ext == time.lastNow && a0.SignatureAlgorithm == s.Algorithm && s.Expiration.ext >= time.lastNow
+//@   modifies time.lastNow
+//@   ensures result1 == nil ==> s.Expiration.ext >= time.lastNow
+//@ func (Signer).Validity
+//@   props C36
+//@   modifies nothing
+//@   ensures result.NotBefore == s.ChainValidity.NotBefore && result.NotAfter == s.Expiration
